@@ -268,6 +268,10 @@ func (t *Taint) propagate(fn *ssa.Function) bool {
 						return
 					}
 				}
+				if (x.Op == token.AND_NOT || x.Op == token.AND) && t.Why(x.X) == "" {
+					// c &^ x and c & x keep only bits of c: bounded by the untainted left operand
+					return
+				}
 				if w := t.Why(x.X); w != "" {
 					local = t.mark(x, w) || local
 				} else if w := t.Why(x.Y); w != "" {
